@@ -116,6 +116,14 @@ class World:
         if m > 0:
             self.floor = min(self.floor, m) if m < 1.0 else self.floor
 
+    def assume_distinct(self, *arrays):
+        """cell values pairwise different (keeps hash-container equality tests from forking per pair)"""
+        if not self.sym:
+            return
+        ts = [sym.term(v) for a in arrays for v in np.ravel(np.asarray(a, dtype=object))]
+        if len(ts) > 1:
+            self.ctx.assume(z3.Distinct(*ts))
+
     def const(self, x):
         """exact constant in both modes"""
         return x
